@@ -1,6 +1,7 @@
 \* Not run by the check. The health check stores a magic block map entry only together with a block it had to
 \* fetch: for a magic-block-carrying block whose file (or, for a non-replicator, whose transaction summaries) are
-\* already there the entry is never repaired. TLC refutes RepairCompletesMB.
+\* already there the entry is never repaired (shown with healthCheck called for a round above the LFB, HCAhead = TRUE: with the
+\* bounds of the worker the hole is closed by the re-finalization of the block). TLC refutes RepairCompletesMB.
 SPECIFICATION Spec
 CONSTANTS
   Canon <- MCCanon3
@@ -12,6 +13,7 @@ CONSTANTS
   CountMerges = TRUE
   MaxFaults = 1
   MaxCnt = 4
+  HCAhead = TRUE
   Concurrent = TRUE
   MaxLag = 0
 CONSTRAINT StateConstraint
